@@ -653,7 +653,8 @@ func (fg *FnGen) convert(v *Val, T types.Type, pos token.Pos) *Val {
 			sid := fg.fresh("str", SInt)
 			fg.assertRaw(Eq(sid, app(f, SInt, Select(e, arr), off, n)))
 			fg.assume(Eq(fg.strLen(sid), n))
-			fg.assume(Gt(sid, IntLit(0)))
+			// no assumption on the id itself: a converted string can be equal to a literal (equal ids have equal length
+			// and content by congruence, so strings of different content are still different)
 			// content
 			k := Term{"k!", SInt}
 			body := Implies(And(Le(IntLit(0), k), Lt(k, n)), Eq(fg.strAt(sid, k), Select(Select(e, arr), Add(off, k))))
